@@ -76,6 +76,7 @@ func Build(state *core.BuildState, target *core.BuildTarget, remote bool) {
 		}
 		target.SetState(core.Failed)
 		target.FinishBuild()
+		state.TargetFailed(target)
 		return
 	}
 	if remote {
